@@ -118,4 +118,59 @@ example : ∃ (p : Cog9.P) (r t : ℝ), 0 < r ∧ 0 < t ∧ p.alpha ≠ 0 ∧
   simp only [epv_leaf]
   norm_num
 
+/-! ### The returned fields (tree level)
+
+The only path condition is `t ≤ 0` (NaN fields); where the solver returns numbers the returned
+fields are those of leaf 1, on the whole line {(x, t)} and for all times near t. -/
+
+
+theorem cog9_tree (p : Cog9.P) (r t : ℝ) (h : Cog9.outcome p r t = .ok) :
+    0 < t ∧ AgreeAt (Cog9.density p) (Cog9.L1.density p) r t
+      ∧ AgreeAt (Cog9.velocity p) (Cog9.L1.velocity p) r t
+      ∧ AgreeAt (Cog9.temperature p) (Cog9.L1.temperature p) r t := by
+  have ht : 0 < t := by
+    by_contra hc
+    have hc' : t ≤ 0 := not_lt.mp hc
+    simp [epv_tree, epv_cond, hc'] at h
+  have e : ∀ x s, 0 < s → Cog9.density p x s = Cog9.L1.density p x s
+      ∧ Cog9.velocity p x s = Cog9.L1.velocity p x s
+      ∧ Cog9.temperature p x s = Cog9.L1.temperature p x s := by
+    intro x s hs
+    have hns : ¬ s ≤ 0 := not_le.mpr hs
+    simp only [epv_tree, epv_cond, hns, if_false, and_self]
+  refine ⟨ht, ⟨fun x => (e x t ht).1, ?_⟩, ⟨fun x => (e x t ht).2.1, ?_⟩, ⟨fun x => (e x t ht).2.2, ?_⟩⟩
+  · filter_upwards [Ioi_mem_nhds ht] with s hs using (e r s hs).1
+  · filter_upwards [Ioi_mem_nhds ht] with s hs using (e r s hs).2.1
+  · filter_upwards [Ioi_mem_nhds ht] with s hs using (e r s hs).2.2
+
+/-- mass balance of the returned (tree-level) fields -/
+theorem cog9_mass_tree (p : Cog9.P) (r t : ℝ) (h : Cog9.outcome p r t = .ok) (hr : 0 < r) (hα0 : p.alpha ≠ 0)
+    (hc : 2 + (p.gamma - 1) * ((p.geometry - 1) + 1) ≠ 0) :
+    massRes (Cog9.density p) (Cog9.velocity p) (p.geometry - 1) r t = 0 := by
+  obtain ⟨ht, hρ', hu', hT'⟩ := cog9_tree p r t h
+  rw [massRes_congr hρ' hu']
+  exact cog9_mass p r t hr ht hα0 hc
+
+/-- momentum balance of the returned (tree-level) fields -/
+theorem cog9_momentum_tree (p : Cog9.P) (r t : ℝ) (h : Cog9.outcome p r t = .ok) (hr : 0 < r) (hα0 : p.alpha ≠ 0)
+    (hc : 2 + (p.gamma - 1) * ((p.geometry - 1) + 1) ≠ 0) (hΓ : p.Gamma ≠ 0)
+    (hD : 2 * p.alpha - 2 * p.beta - (p.geometry - 1) - 7 ≠ 0) (hρ : p.rho0 ≠ 0) :
+    momResT (Cog9.density p) (Cog9.velocity p) (Cog9.temperature p) p.Gamma r t = 0 := by
+  obtain ⟨ht, hρ', hu', hT'⟩ := cog9_tree p r t h
+  rw [momResT_congr hρ' hu' hT']
+  exact cog9_momentum p r t hr ht hα0 hc hΓ hD hρ
+
+/-- energy balance of the returned (tree-level) fields -/
+theorem cog9_energy_tree (p : Cog9.P) (r t : ℝ) (h : Cog9.outcome p r t = .ok) (hr : 0 < r) (hα0 : p.alpha ≠ 0)
+    (hc : 2 + (p.gamma - 1) * ((p.geometry - 1) + 1) ≠ 0) (hΓ : p.Gamma ≠ 0)
+    (hD : 2 * p.alpha - 2 * p.beta - (p.geometry - 1) - 7 ≠ 0) (hγ : p.gamma - 1 ≠ 0)
+    (hk : (p.geometry - 1) + 1 ≠ 0) (hρ : 0 < p.rho0) (hT : 0 < Cog9.temperature p r t)
+    (hα : p.alpha_ = p.alpha) (hβ : p.beta_ = p.beta) :
+    energyResT (Cog9.density p) (Cog9.velocity p) (Cog9.temperature p) p.Gamma p.gamma
+      (p.geometry - 1) p.c_light p.a_rad p.lam0_ p.alpha_ p.beta_ r t = 0 := by
+  obtain ⟨ht, hρ', hu', hT'⟩ := cog9_tree p r t h
+  rw [hT'.eq] at hT
+  rw [energyResT_congr hρ' hu' hT']
+  exact cog9_energy p r t hr ht hα0 hc hΓ hD hγ hk hρ hT hα hβ
+
 end EPV.C01
